@@ -508,9 +508,7 @@ package graphql
 // ---- lazy abstract planning (C01 union of occurrences, C07 lock discipline, C09 no wedged lock, C19 plan only what is met) ----
 
 //@ func Plan.planMergedSelectionsForType
-//@   trusted
 //@   opt maypanic=true
-//@   assigns nothing
 
 //@ func Plan.abstractAlternative
 //@   props C01 C07 C09 C19
@@ -541,3 +539,55 @@ package graphql
 //@   nosafety
 //@   opt split=4
 //@   ensures result0.possibleTypeMap == nil
+
+// ---- planning: one entry per response key, in document order; shared visited set (C01, C13, C19) ----
+
+//@ func planDirectives
+//@   trusted
+//@   assigns nothing
+//@ func getFieldEntryKey
+//@   trusted
+//@   functional
+//@   assigns nothing
+//@ func getFieldDef
+//@   trusted
+//@   assigns nothing
+//@ func andPredicates
+//@   trusted
+//@   assigns nothing
+//@ func planFragmentMatches
+//@   trusted
+//@   assigns nothing
+
+//@ func Plan.collectInto
+//@   props C01 C13 C20
+//@   nosafety
+//@   requires p != nil && sp != nil && selectionSet != nil && keyed != nil
+//@   at[C01,C13] call append#2: assert !has(keyed, responseKey)
+//@   at[C13] call append#2: assert arg0 == sp.fields
+//@   at[C01,C20] call append#1: assert has(keyed, responseKey) && arg0 == sp.fields[keyed[responseKey]].fieldASTs
+//@   at[C01] call collectInto: assert arg0 == p && arg1 == parentType && arg3 == visitedFragmentNames && arg4 == sp && arg5 == keyed
+
+//@ func Plan.planMergedSelectionsForType
+//@   props C19 C01
+//@   nosafety
+//@   loop 1 ensures visited == atloop(1, visited) && keyed == atloop(1, keyed)
+//@   at[C01] call collectInto: assert arg1 == parentType && arg3 == visited && arg4 == sp && arg5 == keyed
+
+// ---- mutations force deferred values depth-first; queries breadth-first (C13) ----
+
+//@ func dethunkMapDepthFirst
+//@   trusted
+//@ func dethunkMapWithBreadthFirstTraversal
+//@   trusted
+//@ func getVariableValues
+//@   trusted
+//@   assigns nothing
+
+//@ func ExecutePlan$2
+//@   props C13 C20 C05
+//@   nosafety
+//@   at[C13] return: assert calls("executePlannedSelection") == 1 && plan.isMutation ==> calls("dethunkMapDepthFirst") == 1 && calls("dethunkMapWithBreadthFirstTraversal") == 0
+//@   at[C13] return: assert calls("executePlannedSelection") == 1 && !plan.isMutation ==> calls("dethunkMapDepthFirst") == 0 && calls("dethunkMapWithBreadthFirstTraversal") == 1
+//@   at[C05] call executePlannedSelection: assert calls("getVariableValues") == 1 && err == nil
+//@   at[C20] call executePlannedSelection: assert arg1 == plan.root && arg2 == p.Root && arg3 == plan.rootType && arg4 == nil && arg0.Root == p.Root && arg0.Context == ctx && arg0.VariableValues == variableValues && arg0.plan == plan
